@@ -27,6 +27,12 @@ def run_models(ctx):
         lambda: solo(ctx, 'solo_kirsch_kfifo', 'KirschKfifoSolo', QM.kf_consts(Progs='<-ProgP1' if q else '<-ProgLost', NSegs=5), 60),
         lambda: solo(ctx, 'solo_kirsch_bounded', 'KirschBoundedSolo', QM.kb_consts(Progs='<-ProgPP' if q else '<-ProgLost'), 60),
         lambda: solo(ctx, 'solo_nikolaev', 'NikolaevQueueSolo', QM.nq_consts(Progs='<-ProgPP', SetupOps=0), 120),
+        # guard acquisition / release / reclaim of the other reclaimers (lock-free by documentation)
+        lambda: solo(ctx, 'solo_lfrc', 'LFRCSolo', RM.lf_consts(MaxOps=2, NNodes=5), 60),
+        lambda: solo(ctx, 'solo_stampit', 'StampItSolo', RM.st_consts(MaxFlush=1 if q else 2), 40),
+        lambda: solo(ctx, 'solo_qsbr', 'QSBRSolo', RM.qs_consts(MaxFlush=1), 60),
+        lambda: solo(ctx, 'solo_hazarderas', 'HazardErasSolo', RM.he_consts(MaxOps=1 if q else 2), 60),
+        lambda: solo(ctx, 'solo_epochbased', 'EpochBasedSolo', RM.eb_consts(MaxOps=1 if q else 2, MaxFlush=1), 80),
         # mechanism toggles: waiting instead of helping must be seen as a solo thread that does not finish
         lambda: solo(ctx, 'solo_toggle_seqlock_1slot', 'SeqlockSoloAll', P14.mc_consts(Slots=1, MaxWrites=1, MaxLoads=1), 16, expect='violation'),
         lambda: solo(ctx, 'solo_toggle_vyukov_strong', 'VyukovBoundedSoloAll', QM.vy_consts(MaxPush=2, MaxPop=1), 12, expect='violation'),
